@@ -5,6 +5,7 @@
 package peer
 
 import (
+	"crypto/tls"
 	"encoding/binary"
 	"fmt"
 	"io"
@@ -70,14 +71,22 @@ type Server struct {
 	Handler func(s *Server, r *Req)
 	// Refuse makes the accept loop close new connections immediately.
 	Refuse int32
+	// TLS, when set, makes the server speak TLS on every accepted connection.
+	TLS *tls.Config
 }
 
-func Listen(host string) (*Server, error) {
-	l, err := net.Listen("tcp", host+":0")
+func Listen(host string) (*Server, error) { return ListenTLS(host, nil) }
+
+// ListenTLS is Listen for an ssl endpoint (cfg == nil: plain tcp).
+func ListenTLS(host string, cfg *tls.Config) (*Server, error) {
+	l, err := net.Listen("tcp", net.JoinHostPort(host, "0"))
 	if err != nil {
 		return nil, err
 	}
-	s := &Server{L: l, Addr: l.Addr().String(), Host: host, Port: l.Addr().(*net.TCPAddr).Port, conns: map[int]net.Conn{}, wlocks: map[int]*sync.Mutex{}}
+	if cfg != nil {
+		l = tls.NewListener(l, cfg)
+	}
+	s := &Server{TLS: cfg, L: l, Addr: l.Addr().String(), Host: host, Port: l.Addr().(*net.TCPAddr).Port, conns: map[int]net.Conn{}, wlocks: map[int]*sync.Mutex{}}
 	go s.accept()
 	return s, nil
 }
@@ -87,6 +96,9 @@ func (s *Server) Relisten() error {
 	l, err := net.Listen("tcp", s.Addr)
 	if err != nil {
 		return err
+	}
+	if s.TLS != nil {
+		l = tls.NewListener(l, s.TLS)
 	}
 	s.mu.Lock()
 	s.L = l
@@ -348,6 +360,9 @@ func (s *Server) ResetAllConns() {
 		s.mu.Lock()
 		c := s.conns[id]
 		s.mu.Unlock()
+		if tl, ok := c.(*tls.Conn); ok {
+			c = tl.NetConn()
+		}
 		if tc, ok := c.(*net.TCPConn); ok {
 			_ = tc.SetLinger(0)
 		}
